@@ -1,161 +1,196 @@
-(* Vector.v — model of CgreenVector (src/vector.c) with bounds-checked memory: the items
-   array is a list whose length is `space`; every read or write outside it is OutOfBounds.
-   Plus the proofs that no operation sequence ever goes out of bounds and that the vector
-   behaves as a plain list at every size (in particular across growth boundaries). *)
+(* Vector.v — executable models of cgreen's growable containers with bounds-checked memory:
+     CgreenVector (src/vector.c), the TestSuite entry array (src/suite.c: add_test_, add_suite_)
+     and the breadcrumb trail (src/breadcrumb.c).
+   An array is a list whose length is the allocated element count; every read or write outside
+   it is the explicit outcome OutOfBounds (never totalised).  The guards, index expressions and
+   growth step are NOT written here: they are the fields of `vsrc`/`ssrc`/`bsrc`, instantiated in
+   Gen/Facts.v with the expressions translated from the C sources on every run.
+   No proofs in this file (Lemmas_Vector.v), so the model still extracts when a proof breaks. *)
 From Coq Require Import List ZArith Bool Lia Arith.
 From CgreenVerif Require Import Defs.
 Import ListNotations.
+Local Open Scope Z_scope.
 
-Section Vec.
-Variable step : nat.              (* growth step, regenerated from increase_space() *)
-Hypothesis step_pos : (0 < step)%nat.
-
-Record vec := mkvec { vsize : nat; vitems : list (option Z) }.     (* length vitems = space *)
-Definition vempty := mkvec 0 [].
-
-Inductive res (A : Type) := Ok (a : A) | OutOfBounds.
+Inductive res (A : Type) := Ok (a : A) | OutOfBounds | OutOfFuel.
 Arguments Ok {A} a.
 Arguments OutOfBounds {A}.
+Arguments OutOfFuel {A}.
 
-Definition rd (l : list (option Z)) (i : nat) : res (option Z) :=
-  match nth_error l i with Some x => Ok x | None => OutOfBounds end.
-Definition wr (l : list (option Z)) (i : nat) (x : option Z) : res (list (option Z)) :=
-  if (i <? length l)%nat then Ok (firstn i l ++ x :: skipn (S i) l) else OutOfBounds.
+Definition mem := list (option Z).          (* None = NULL / never written *)
 
-(* cgreen_vector_add() *)
+Definition rd (l : mem) (i : Z) : res (option Z) :=
+  if i <? 0 then OutOfBounds
+  else match nth_error l (Z.to_nat i) with Some x => Ok x | None => OutOfBounds end.
+Definition wr (l : mem) (i : Z) (x : option Z) : res mem :=
+  if i <? 0 then OutOfBounds
+  else if (Z.to_nat i <? length l)%nat
+       then Ok (firstn (Z.to_nat i) l ++ x :: skipn (S (Z.to_nat i)) l) else OutOfBounds.
+
+(* realloc(items, n elements): keeps the common prefix, new slots are uninitialised (None) *)
+Definition realloc (l : mem) (n : Z) : mem :=
+  let n' := Z.to_nat n in firstn n' l ++ repeat None (n' - length l).
+
+(* ------------------------------------------------------------------ CgreenVector *)
+
+Record vec := mkvec { vsize : Z; vspace : Z; vitems : mem }.     (* length vitems = space *)
+Definition vempty := mkvec 0 0 [].
+
+Section Vec.
+Variable S : vsrc.
+
 Definition vadd (v : vec) (x : Z) : res vec :=
-  let items := if Nat.eqb (vsize v) (length (vitems v)) then vitems v ++ repeat None step else vitems v in
-  match wr items (vsize v) (Some x) with
-  | Ok items' => Ok (mkvec (S (vsize v)) items')
+  let '(space, items) :=
+    if v_must_grow S (vsize v) (vspace v)
+    then (vspace v + v_step S, realloc (vitems v) (vspace v + v_step S))
+    else (vspace v, vitems v) in
+  match wr items (v_add_index S (vsize v)) (Some x) with
+  | Ok items' => Ok (mkvec (vsize v + 1) space items')
   | OutOfBounds => OutOfBounds
+  | OutOfFuel => OutOfFuel
   end.
 
-(* the loop of cgreen_vector_remove(): n iterations of items[i] = items[i + 1] *)
-Fixpoint shift (n i : nat) (l : list (option Z)) : res (list (option Z)) :=
-  match n with
-  | O => Ok l
-  | S n' => match rd l (S i) with
-            | Ok x => match wr l i x with Ok l' => shift n' (S i) l' | OutOfBounds => OutOfBounds end
-            | OutOfBounds => OutOfBounds
-            end
+(* the loop of cgreen_vector_remove() *)
+Fixpoint shift_loop (fuel : nat) (size i : Z) (l : mem) : res mem :=
+  match fuel with
+  | O => OutOfFuel
+  | Datatypes.S f =>
+      if v_shift_cond S i size then
+        match rd l (v_shift_src S i) with
+        | Ok x => match wr l (v_shift_dst S i) x with
+                  | Ok l' => shift_loop f size (i + 1) l'
+                  | OutOfBounds => OutOfBounds | OutOfFuel => OutOfFuel
+                  end
+        | OutOfBounds => OutOfBounds | OutOfFuel => OutOfFuel
+        end
+      else Ok l
   end.
 
 (* cgreen_vector_remove(): None = illegal position (PANIC, returns NULL) *)
-Definition vremove (v : vec) (pos : nat) : res (vec * option Z) :=
-  if (vsize v <=? pos)%nat then Ok (v, None)
+Definition vremove (v : vec) (pos : Z) : res (vec * option Z) :=
+  if v_illegal_remove S pos (vsize v) then Ok (v, None)
   else match rd (vitems v) pos with
-       | OutOfBounds => OutOfBounds
        | Ok item =>
-           match shift (vsize v - 1 - pos) pos (vitems v) with
-           | OutOfBounds => OutOfBounds
-           | Ok l => match wr l (vsize v - 1) None with
-                     | Ok l' => Ok (mkvec (vsize v - 1) l', item)
-                     | OutOfBounds => OutOfBounds
+           match shift_loop (Datatypes.S (length (vitems v))) (vsize v) pos (vitems v) with
+           | Ok l => match wr l (v_clear_index S (vsize v)) None with
+                     | Ok l' => Ok (mkvec (vsize v - 1) (vspace v) l', item)
+                     | OutOfBounds => OutOfBounds | OutOfFuel => OutOfFuel
                      end
+           | OutOfBounds => OutOfBounds | OutOfFuel => OutOfFuel
            end
+       | OutOfBounds => OutOfBounds | OutOfFuel => OutOfFuel
        end.
 
 (* cgreen_vector_get() *)
-Definition vget (v : vec) (pos : nat) : res (option Z) :=
-  if (vsize v <=? pos)%nat then Ok None else rd (vitems v) pos.
+Definition vget (v : vec) (pos : Z) : res (option Z) :=
+  if v_illegal_get S pos (vsize v) then Ok None else rd (vitems v) pos.
+
+Inductive vop := VAdd (x : Z) | VRemove (pos : Z) | VGet (pos : Z) | VSize.
+Inductive vout := OItem (x : option Z) | OSize (n : Z).
+
+(* run an operation list; outputs in order *)
+Fixpoint vrun (v : vec) (ops : list vop) : res (vec * list vout) :=
+  match ops with
+  | [] => Ok (v, [])
+  | VAdd x :: r =>
+      match vadd v x with
+      | Ok v' => vrun v' r
+      | OutOfBounds => OutOfBounds | OutOfFuel => OutOfFuel end
+  | VRemove p :: r =>
+      match vremove v p with
+      | Ok (v', o) => match vrun v' r with Ok (v'', os) => Ok (v'', OItem o :: os)
+                                     | OutOfBounds => OutOfBounds | OutOfFuel => OutOfFuel end
+      | OutOfBounds => OutOfBounds | OutOfFuel => OutOfFuel end
+  | VGet p :: r =>
+      match vget v p with
+      | Ok o => match vrun v r with Ok (v'', os) => Ok (v'', OItem o :: os)
+                               | OutOfBounds => OutOfBounds | OutOfFuel => OutOfFuel end
+      | OutOfBounds => OutOfBounds | OutOfFuel => OutOfFuel end
+  | VSize :: r =>
+      match vrun v r with Ok (v'', os) => Ok (v'', OSize (vsize v) :: os)
+                     | OutOfBounds => OutOfBounds | OutOfFuel => OutOfFuel end
+  end.
+End Vec.
 
 (* ---- specification: a plain list ---- *)
 Fixpoint remove_nth (l : list Z) (n : nat) : list Z :=
   match l, n with
   | [], _ => []
   | _ :: l', O => l'
-  | x :: l', S n' => x :: remove_nth l' n'
+  | x :: l', Datatypes.S n' => x :: remove_nth l' n'
   end.
 
-(* the vector represents data d: the first |d| slots hold d, the rest are within space *)
-Definition rep (v : vec) (d : list Z) : Prop :=
-  vsize v = length d /\ exists k, vitems v = map Some d ++ repeat None k.
+Definition legal (d : list Z) (p : Z) : bool := (0 <=? p) && (p <? Z.of_nat (length d)).
 
-Lemma rep_empty : rep vempty [].
-Proof. split; [reflexivity|]. exists 0%nat. reflexivity. Qed.
+Fixpoint lrun (d : list Z) (ops : list vop) : list Z * list vout :=
+  match ops with
+  | [] => (d, [])
+  | VAdd x :: r => lrun (d ++ [x]) r
+  | VRemove p :: r =>
+      if legal d p then let '(d', os) := lrun (remove_nth d (Z.to_nat p)) r in (d', OItem (nth_error d (Z.to_nat p)) :: os)
+      else let '(d', os) := lrun d r in (d', OItem None :: os)
+  | VGet p :: r =>
+      let '(d', os) := lrun d r in
+      (d', OItem (if legal d p then nth_error d (Z.to_nat p) else None) :: os)
+  | VSize :: r => let '(d', os) := lrun d r in (d', OSize (Z.of_nat (length d)) :: os)
+  end.
 
-Lemma wr_ok l i x : (i < length l)%nat -> wr l i x = Ok (firstn i l ++ x :: skipn (S i) l).
-Proof. intros H. unfold wr. apply Nat.ltb_lt in H. rewrite H. reflexivity. Qed.
+(* ------------------------------------------------------------------ TestSuite entry array *)
+Record sarr := mksarr { ssize : Z; sitems : mem }.
+Definition sempty := mksarr 0 [].
+(* add_test_ (kind false) and add_suite_ (kind true) each have their own translated source *)
+Definition sadd (S : ssrc) (a : sarr) (x : Z) : res sarr :=
+  let size' := s_new_size S (ssize a) in
+  let items := realloc (sitems a) (s_alloc_count S size') in
+  match wr items (s_write_index S size') (Some x) with
+  | Ok items' => Ok (mksarr size' items')
+  | OutOfBounds => OutOfBounds | OutOfFuel => OutOfFuel
+  end.
+Fixpoint srun (St Ss : ssrc) (a : sarr) (ops : list (bool * Z)) : res sarr :=
+  match ops with
+  | [] => Ok a
+  | (k, x) :: r => match sadd (if k then Ss else St) a x with
+                   | Ok a' => srun St Ss a' r
+                   | OutOfBounds => OutOfBounds | OutOfFuel => OutOfFuel end
+  end.
 
-Lemma vadd_spec v d x : rep v d -> exists v', vadd v x = Ok v' /\ rep v' (d ++ [x]).
-Proof.
-  intros [Hs [k Hi]]. unfold vadd.
-  set (items := if Nat.eqb (vsize v) (length (vitems v)) then vitems v ++ repeat None step else vitems v).
-  assert (Hit : exists k', items = map Some d ++ repeat None (S k')).
-  { subst items. destruct (Nat.eqb (vsize v) (length (vitems v))) eqn:E.
-    - apply Nat.eqb_eq in E. rewrite Hi, app_length, map_length, repeat_length in E.
-      assert (k = 0)%nat by lia. subst k. rewrite Hi. cbn [repeat]. rewrite app_nil_r.
-      destruct step as [|s']; [lia|]. exists s'. reflexivity.
-    - apply Nat.eqb_neq in E. rewrite Hi, app_length, map_length, repeat_length in E.
-      destruct k as [|k']; [lia|]. exists k'. exact Hi. }
-  destruct Hit as [k' Hit]. rewrite Hit, Hs.
-  rewrite wr_ok by (rewrite app_length, map_length, repeat_length; lia).
-  eexists. split; [reflexivity|]. split; [cbn [vsize]; rewrite app_length; cbn; lia|].
-  exists k'. cbn [vitems].
-  rewrite firstn_app, map_length, Nat.sub_diag. cbn [firstn]. rewrite app_nil_r.
-  rewrite <- (map_length Some d) at 1. rewrite firstn_all.
-  replace (S (length d)) with (length (map Some d) + 1)%nat by (rewrite map_length; lia).
-  rewrite skipn_app, skipn_all2 by lia. rewrite map_length. replace (length d + 1 - length d)%nat with 1%nat by lia.
-  cbn [repeat skipn app]. rewrite map_app. cbn [map]. rewrite <- app_assoc. reflexivity.
-Qed.
-
-Lemma rd_data d k i x : nth_error d i = Some x -> rd (map Some d ++ repeat None k) i = Ok (Some x).
-Proof.
-  intros H. unfold rd. rewrite nth_error_app1 by (rewrite map_length; apply nth_error_Some; congruence).
-  rewrite nth_error_map, H. reflexivity.
-Qed.
-
-(* one step of the shift loop on a list whose first |d| slots hold data *)
-Lemma shift_spec : forall n i d k,
-  (i + n + 1 = length d)%nat ->
-  exists d', shift n i (map Some d ++ repeat None k) = Ok (map Some d' ++ repeat None k) /\
-             length d' = length d /\
-             firstn i d' = firstn i d /\
-             (forall j, (i <= j < i + n)%nat -> nth_error d' j = nth_error d (S j)) /\
-             nth_error d' (i + n) = nth_error d (i + n).
-Proof.
-  induction n as [|n IH]; intros i d k Hlen.
-  - exists d. cbn [shift]. repeat split; auto. intros j Hj. lia.
-  - cbn [shift].
-    destruct (nth_error d (S i)) as [x|] eqn:Hx; [|apply nth_error_None in Hx; lia].
-    rewrite (rd_data d k (S i) x Hx).
-    rewrite wr_ok by (rewrite app_length, map_length; lia).
-    (* the list after the write is again data ++ padding *)
-    set (d1 := firstn i d ++ x :: skipn (S i) d).
-    assert (Hd1 : firstn i (map Some d ++ repeat None k) ++ Some x :: skipn (S i) (map Some d ++ repeat None k)
-                  = map Some d1 ++ repeat None k).
-    { subst d1. rewrite firstn_app, skipn_app, map_length.
-      replace (i - length d)%nat with 0%nat by lia. replace (S i - length d)%nat with 0%nat by lia.
-      cbn [firstn skipn]. rewrite app_nil_r, map_app. cbn [map]. rewrite firstn_map, skipn_map.
-      rewrite <- app_assoc. reflexivity. }
-    rewrite Hd1.
-    assert (Hl1 : length d1 = length d).
-    { subst d1. rewrite app_length, firstn_length. cbn [length]. rewrite skipn_length. lia. }
-    destruct (IH (S i) d1 k) as (d' & Hsh & Hl' & Hf' & Hmid & Hlast); [lia|].
-    exists d'. rewrite Hsh. split; [reflexivity|]. split; [lia|].
-    assert (Hn1 : forall j, j <> i -> nth_error d1 j = nth_error d j).
-    { intros j Hj. subst d1. destruct (Nat.lt_ge_cases j i) as [Hlt|Hge].
-      - rewrite nth_error_app1 by (rewrite firstn_length; lia). apply nth_error_firstn; lia.
-      - rewrite nth_error_app2 by (rewrite firstn_length; lia). rewrite firstn_length.
-        replace (Nat.min i (length d)) with i by lia.
-        destruct (j - i)%nat as [|m] eqn:Hm; [lia|]. cbn [nth_error]. rewrite nth_error_skipn. f_equal. lia. }
-    assert (Hni : nth_error d1 i = Some x).
-    { subst d1. rewrite nth_error_app2 by (rewrite firstn_length; lia). rewrite firstn_length.
-      replace (i - Nat.min i (length d))%nat with 0%nat by lia. reflexivity. }
-    split.
-    { (* firstn i *)
-      apply (f_equal (firstn i)) in Hf'. rewrite !firstn_firstn in Hf'. replace (Nat.min i (S i)) with i in Hf' by lia.
-      rewrite Hf'. subst d1. rewrite firstn_app, firstn_firstn, firstn_length.
-      replace (Nat.min i i) with i by lia. replace (i - Nat.min i (length d))%nat with 0%nat by lia.
-      cbn [firstn]. apply app_nil_r. }
-    split.
-    { intros j Hj. destruct (Nat.eq_dec j i) as [->|Hne].
-      - (* slot i: unchanged by the remaining iterations, holds x = d[i+1] *)
-        assert (Hfi : nth_error d' i = nth_error d1 i).
-        { assert (Hx' := f_equal (fun l => nth_error l i) Hf'). cbn beta in Hx'.
-          rewrite !nth_error_firstn in Hx' by lia. exact Hx'. }
-        rewrite Hfi, Hni. symmetry. exact Hx.
-      - rewrite (Hmid j) by lia. apply Hn1. lia. }
-    replace (i + S n)%nat with (S i + n)%nat by lia. rewrite Hlast. apply Hn1. lia.
-Qed.
-End Vec.
+(* ------------------------------------------------------------------ breadcrumb trail *)
+Record crumb := mkcrumb { cdepth : Z; cspace : Z; ctrail : mem }.
+Definition cempty := mkcrumb 0 0 [].
+Definition cpush (B : bsrc) (c : crumb) (x : Z) : res crumb :=
+  let depth := cdepth c + 1 in
+  let '(space, trail) := if b_must_grow B depth (cspace c)
+                         then (cspace c + 1, realloc (ctrail c) (cspace c + 1)) else (cspace c, ctrail c) in
+  match wr trail (b_push_index B depth) (Some x) with
+  | Ok t => Ok (mkcrumb depth space t)
+  | OutOfBounds => OutOfBounds | OutOfFuel => OutOfFuel
+  end.
+Definition cpop (c : crumb) : crumb := mkcrumb (cdepth c - 1) (cspace c) (ctrail c).
+Definition ccurrent (B : bsrc) (c : crumb) : res (option Z) :=
+  if cdepth c =? 0 then Ok None else rd (ctrail c) (b_current_index B (cdepth c)).
+(* ops: Some x = push x, None = pop; after every op the current entry is read *)
+Fixpoint crun (B : bsrc) (c : crumb) (ops : list (option Z)) : res (crumb * list (option Z)) :=
+  match ops with
+  | [] => Ok (c, [])
+  | o :: r =>
+      match (match o with Some x => cpush B c x | None => Ok (cpop c) end) with
+      | Ok c' => match ccurrent B c' with
+                 | Ok cur => match crun B c' r with
+                             | Ok (c'', outs) => Ok (c'', cur :: outs)
+                             | OutOfBounds => OutOfBounds | OutOfFuel => OutOfFuel end
+                 | OutOfBounds => OutOfBounds | OutOfFuel => OutOfFuel end
+      | OutOfBounds => OutOfBounds | OutOfFuel => OutOfFuel end
+  end.
+(* the stack the trail stands for *)
+Fixpoint stack_run (st : list Z) (ops : list (option Z)) : list (option Z) :=
+  match ops with
+  | [] => []
+  | Some x :: r => Some x :: stack_run (x :: st) r
+  | None :: r => hd_error (tl st) :: stack_run (tl st) r
+  end.
+(* pops never outnumber pushes at any point (the runner's use: push at start, pop at finish) *)
+Fixpoint balanced (d : nat) (ops : list (option Z)) : bool :=
+  match ops with
+  | [] => true
+  | Some _ :: r => balanced (Datatypes.S d) r
+  | None :: r => match d with O => false | Datatypes.S d' => balanced d' r end
+  end.
